@@ -23,7 +23,7 @@ Proof.
 Qed.
 
 Lemma api_age_flush : forall lazy s cached o tro t,
-  single_block_op o -> map fst tro = api_expand (ViaBucket cached o) ->
+  event_write_op o -> map fst tro = api_expand (ViaBucket cached o) ->
   mono_from t tro -> t - last_commit s > MAX_AGE ->
   pending (run lazy s tro) = [].
 Proof.
